@@ -636,6 +636,14 @@ HAND_TEXTS = ['1-2j', '(1-2j)', '-(1+2j)', '{1, 2}', 'set()', '+1', '~1', '1*2',
               '[]', "b'ab'", 'None', 'True', '1e3', '0x10', "'%(x)s'", '"q" "%"']
 
 
+# expressions that are not reprs of literals but that the builder evaluates: when unrepr accepts them the value
+# must be the one Python computes (rejecting them is not a failure: the statement is about literal values)
+EVAL_TEXTS = ['dict(a=1)', '(1,)[0]', "{'a': 1}['a']", 'int("5")', 'list((1, 2))', 'complex(1, -2)', '1+2', '1.5-0.5',
+              '2*3.5', '[1] + [2]', "'a' 'b'", '-(1+2j)', '1-2j', '0x10', '1e3', 'os.path.join("a", "b")',
+              'str.upper("x")', 'dict([(1, 2)], b=3)', 'dict(**{"k": 1})', 'max(*[1, 5, 2])', '[1, 2][-1]', '3-1-1',
+              '2*3+1', '"%s" "x"', '-(-1)', '(1+2j)-(3+1j)', 'int', 'tuple([1])', "dict(a=1, **{'a': 2, 'b': 3})"]
+
+
 def gen_value(rng, depth=0):
     r = rng.random()
     if depth >= 3 or r < 0.55:
@@ -859,6 +867,16 @@ def check_literal_cases(ctx, cases, compare_model=True):
             got = ('ok', reprconf.unrepr(text))
         except Exception as e:
             got = ('err', classify_exc(e))
+        if kind == 'eval' and got[0] == 'ok':
+            import os as _os
+            try:
+                want = eval(text, {'os': _os})
+            except Exception:
+                want = None
+            else:
+                if not (deep_same(got[1], want) or got[1] is want):
+                    ctx.oracle_fail(case, 'unrepr(%r) = %r, Python evaluates the same expression to %r'
+                                    % (text, got[1], want), 'unrepr_wrong_value')
         # --- oracle: the INI value evaluates to the same Python object as the equivalent dict value ---
         if kind in ('value', 'dotted'):
             try:
@@ -947,6 +965,8 @@ def gen_literal_cases(rng, n):
         cases.append({'lit': {'text': t, 'kind': 'hand'}})
     for t in DOTTED:
         cases.append({'lit': {'text': t, 'kind': 'dotted'}})
+    for t in EVAL_TEXTS:
+        cases.append({'lit': {'text': t, 'kind': 'eval'}})
     for _ in range(n):
         v = gen_value(rng)
         cases.append({'lit': {'text': repr(v), 'kind': 'value'}})
